@@ -351,6 +351,51 @@ fn c01(args: &[String]) {
     writeln!(out, "{}", json!({"shard_done": shard})).unwrap();
 }
 
+/// arith --in <ndjson> --out <ndjson> [--shard i --of n] [--seed s] [--sums]: C06
+fn arith(args: &[String]) {
+    let input = arg(args, "--in").expect("--in");
+    let output = arg(args, "--out").expect("--out");
+    let shard: usize = arg(args, "--shard").map(|s| s.parse().unwrap()).unwrap_or(0);
+    let of: usize = arg(args, "--of").map(|s| s.parse().unwrap()).unwrap_or(1);
+    let seed: usize = arg(args, "--seed").map(|s| s.parse().unwrap()).unwrap_or(0);
+    let only: Option<usize> = arg(args, "--only").map(|s| s.parse().unwrap());
+    let mut meta: Option<Value> = None;
+    let mut rows: Vec<Value> = vec![];
+    for line in std::io::BufReader::new(std::fs::File::open(&input).expect("open input")).lines() {
+        let v: Value = serde_json::from_str(&line.unwrap()).expect("json");
+        if v["kind"] == "meta" {
+            meta = Some(v);
+        } else {
+            rows.push(v);
+        }
+    }
+    let meta = meta.expect("meta line");
+    let mut out = std::fs::OpenOptions::new().create(true).append(true).open(&output).expect("open output");
+    if args.iter().any(|a| a == "--sums") {
+        if shard == 0 {
+            writeln!(out, "{}", json!({"idx": 0, "begin": true})).unwrap();
+            let mut r = lvh::arith::run_sums(&meta, seed);
+            r["idx"] = json!(0);
+            r["sums"] = json!(true);
+            writeln!(out, "{}", r).unwrap();
+        }
+    } else {
+        for (i, row) in rows.iter().enumerate() {
+            if i % of != shard {
+                continue;
+            }
+            writeln!(out, "{}", json!({"idx": i, "begin": true})).unwrap();
+            out.flush().unwrap();
+            let mut r = lvh::arith::run(&meta, std::slice::from_ref(row), seed, only);
+            r["idx"] = json!(i);
+            r["row"] = row["idx"].clone();
+            writeln!(out, "{}", r).unwrap();
+            out.flush().unwrap();
+        }
+    }
+    writeln!(out, "{}", json!({"shard_done": shard})).unwrap();
+}
+
 fn main() {
     lvh::util::quiet_panics();
     let args: Vec<String> = std::env::args().collect();
@@ -363,6 +408,7 @@ fn main() {
         Some("reqseq") => reqseq(&args[2..]),
         Some("qsem") => qsem(&args[2..]),
         Some("c01") => c01(&args[2..]),
+        Some("arith") => arith(&args[2..]),
         Some("record-stress") => record_stress(&args[2..]),
         _ => {
             eprintln!("usage: lvh <replay-hist> ...");
